@@ -37,6 +37,24 @@ MUTATING_PREFIX = ("mk_", "set", "link", "unlink", "del", "write", "append", "re
                    "force_ts", "clear_ext")
 
 
+def _num(x):
+    if isinstance(x, bool):
+        return None
+    if isinstance(x, int):
+        return float(x)
+    if isinstance(x, dict) and set(x) == {"f"}:
+        return float(x["f"])
+    return None
+
+
+def _numeq(a, b):
+    """2 and 2.0 are the same attribute value; NaN equals NaN"""
+    if isinstance(a, list) and isinstance(b, list):
+        return len(a) == len(b) and all(x == y or _numeq(x, y) for x, y in zip(a, b))
+    x, y = _num(a), _num(b)
+    return x is not None and y is not None and (x == y or (x != x and y != y))
+
+
 def model_check(it, W, ctx, case, where):
     """(ii): skeleton model vs walk"""
     nodes = {n["id"]: n for n in walk.entities(W) if n.get("kind") != "File" and n.get("kind") != "DimensionLink"}
@@ -71,8 +89,20 @@ def model_check(it, W, ctx, case, where):
                 want = walk.cfloat(val)
             if attr in ("unit",) and val == "":
                 want = None
-            if n[attr] != want:
+            if n[attr] != want and not _numeq(n[attr], want):
                 v("attr/%s.%s" % (e.kind, attr), {"entity": e.path(), "want": want, "got": n[attr]})
+        if e.kind == "array" and isinstance(n.get("dimensions"), list):
+            # numeric descriptor attributes: the value written last (int or float) is the value read
+            for i, d in enumerate(e.info.get("dims", [])):
+                if i >= len(n["dimensions"]) or not isinstance(n["dimensions"][i], dict):
+                    continue
+                for attr, val in (d.get("attrs") or {}).items():
+                    got = n["dimensions"][i].get(attr)
+                    want = walk.cval(val)
+                    if attr == "offset" and got is None and (val is None or val == 0):
+                        continue        # 'no offset' and offset 0 are the same descriptor
+                    if got != want and not _numeq(got, want):
+                        v("attr/dimension.%s" % attr, {"entity": e.path(), "dim": i, "want": want, "got": got})
         for role, lst in e.children.items():
             if role not in n:
                 continue
